@@ -539,6 +539,65 @@ Proof.
   - rewrite app_length. lia.
 Qed.
 
+(* ------------------------------------------------------------------ the declaration forms as DeclToks *)
+Lemma decltoks_alias ms name gs ty : Forall (mod_wf c10k_is_mod) ms -> Gr STy ty ->
+  DeclToks (mods_toks ms ++ kw "typealias" :: KIdent name :: gens_toks gs ++ KP 61 :: ty).
+Proof.
+  intros Hms Hty. split; [apply mods_head|].
+  intros rest f Hr Hf. destruct f as [|f]; [lia|]. cbn [c10k_d]. rewrite <- app_assoc. cbn [app]. rewrite <- app_assoc. cbn [app].
+  apply decl_alias; assumption.
+Qed.
+
+Lemma decltoks_object ms name d : Forall (mod_wf c10k_is_mod) ms ->
+  match d with Some (u, l) => Gr SUser u /\ Forall expr_tok l | None => True end ->
+  DeclToks (mods_toks ms ++ kw "object" :: KIdent name :: odeleg_toks d).
+Proof.
+  intros Hms Hd. split; [apply mods_head|].
+  intros rest f Hr Hf. destruct f as [|f]; [lia|]. cbn [c10k_d]. rewrite <- app_assoc. cbn [app].
+  apply decl_object; assumption.
+Qed.
+
+Lemma decltoks_fun ms name ty e : Forall (mod_wf c10k_is_mod) ms ->
+  match ty with Some t => Gr STy t | None => True end -> expr_tok e ->
+  DeclToks (mods_toks ms ++ kw "fun" :: fun_toks name ty e).
+Proof.
+  intros Hms Hty He. split; [apply mods_head|].
+  intros rest f Hr Hf. destruct f as [|f]; [lia|]. cbn [c10k_d]. rewrite <- app_assoc. cbn [app].
+  apply decl_fun; assumption.
+Qed.
+
+(* the body of a class given by its member declarations *)
+Inductive kbody2 := B2None | B2Entries (es : list (list c10_tok)) | B2Members (mts : list (list c10_tok)).
+Definition body2 (b : kbody2) : kbody :=
+  match b with B2None => BNone | B2Entries es => BEntries es | B2Members mts => BMembers (List.concat mts ++ [KP 125]) end.
+
+Lemma decltoks_class ms name gs ctor d b : Forall (mod_wf c10k_is_mod) ms ->
+  match ctor with Some ps => Forall ParamToks ps | None => True end ->
+  match d with Some (u, l) => Gr SUser u /\ Forall expr_tok l | None => True end ->
+  match b with
+  | B2None => True
+  | B2Entries es => mods_enum ms = true /\ Forall EntryToks es
+  | B2Members mts => mods_enum ms = false /\ Forall DeclToks mts
+  end ->
+  DeclToks (mods_toks ms ++ kw "class" :: KIdent name :: gens_toks gs ++ octor_toks ctor ++ odeleg_toks d ++ body_toks (body2 b)).
+Proof.
+  intros Hms Hc Hd Hb. split; [apply mods_head|].
+  intros rest f Hr Hf. destruct f as [|f]; [lia|]. cbn [c10k_d].
+  rewrite <- app_assoc. cbn [app]. rewrite <- !app_assoc.
+  assert (Nb : forall c, c <> 64 -> c <> 125 -> c <> 123 -> nohead c (body_toks (body2 b) ++ rest)).
+  { intros c H1 H2 H3. destruct b; cbn [body2 body_toks app]; [apply dfol_nohead; assumption|apply nohead_kp; lia|apply nohead_kp; lia]. }
+  assert (Nd : forall c, c <> 64 -> c <> 125 -> c <> 123 -> c <> 58 -> nohead c (odeleg_toks d ++ body_toks (body2 b) ++ rest)).
+  { intros c H1 H2 H3 H4. destruct d as [[u l]|]; [apply nohead_kp; lia|apply Nb; assumption]. }
+  apply decl_class; try assumption.
+  - destruct b as [|es|mts]; cbn [body2]; [exact I|exact Hb|]. destruct Hb as [He Hm]. split; [exact He|].
+    apply members_arg; [exact Hm|]. rewrite !app_length in Hf. cbn [List.length] in Hf. rewrite !app_length in Hf.
+    cbn [body2 body_toks List.length] in Hf. rewrite app_length in Hf. cbn [List.length] in Hf. lia.
+  - intros _. destruct ctor; [apply nohead_kp; lia|apply Nd; lia].
+  - intros _. apply Nd; lia.
+  - intros _. apply Nb; lia.
+  - intros E. destruct b; try discriminate. apply dfol_nohead; [exact Hr|lia|lia].
+Qed.
+
 (* ------------------------------------------------------------------ package header and imports *)
 Definition import_toks (i : list str) : list c10_tok := kw "import" :: qual_toks i.
 Definition opackage_toks (p : option (list str)) : list c10_tok := match p with Some l => kw "package" :: qual_toks l | None => [] end.
